@@ -40,11 +40,14 @@ def handle (impl : String) : String :=
   else
   match toks impl with
   | [] => "!empty | - | 0"
-  | _cfg :: ets =>
+  | cfg :: ets =>
+    let lock := match cfg.splitOn ":" with
+      | ["cfg", _, l] => l.toNat?.getD 0
+      | _ => 0
     let evs := ets.map parseEv
     if evs.any (·.isNone) then "!bad-event | - | 0" else
     let es := (evs.filterMap id).filterMap id
-    let rs := refusals {} es []
+    let rs := refusals (init lock) es []
     let nDel := (es.filter (fun e => match e with | .delivered _ _ _ _ => true | _ => false)).length
     let nWire := (es.filter (fun e => match e with | .wireAck _ _ _ _ _ _ _ => true | _ => false)).length
     let nt := boolStr (decide (nDel ≥ 10) && decide (nWire ≥ 3))
@@ -63,8 +66,11 @@ def refusalsIdx : St → List Ev → Nat → List String → List String
 def debug (impl : String) : String :=
   match toks impl with
   | [] => "!empty | - | 0"
-  | _cfg :: ets =>
+  | cfg :: ets =>
+    let lock := match cfg.splitOn ":" with
+      | ["cfg", _, l] => l.toNat?.getD 0
+      | _ => 0
     let es := ((ets.map parseEv).filterMap id).filterMap id
-    " ".intercalate ((refusalsIdx {} es 0 []).take 5) ++ " | - | 0"
+    " ".intercalate ((refusalsIdx (init lock) es 0 []).take 5) ++ " | - | 0"
 
 end Driver.ShareHist
